@@ -187,8 +187,8 @@ def run_case(case, workdir):
         m_ = positions[len(positions) // 3]
         for limit, serial in ((None, False), (0, True)):
             o1, o2 = os.path.join(workdir, "cli_plt"), os.path.join(workdir, "api_plt")
-            argv = ["mandoline", path, "-f", "plotfile", "-o", o1, "-V", "0", "-n", str(n), "-p", repr(sm.pos_of(m_)), "-v", "G", "A"] \
-                + (["-L", str(limit)] if limit is not None else []) + (["-s"] if serial else [])
+            argv = ["mandoline", path, "-f", "plotfile", "-o", o1, "-n", str(n), "-p", repr(sm.pos_of(m_)), "-v", "G", "A"] \
+                + (["-L", str(limit)] if limit is not None else []) + (["-s", "-V", "0"] if serial else [])       # default verbosity in parallel mode
             with vpool.controlled():
                 with poisoned(MODS, 0):
                     st, val = run_cli(mcli.main, argv)
